@@ -10,11 +10,12 @@ P("C38",
              "IPv4-mapped 16-byte and 16-byte encodings, and nothing else is. c38_guard_refuses/_allow_characterised, c38_redirect_rechecked, "
              "c38_dial_by_vetted_ip/_dial_refuses, c38_no_internal_connect: for every resolver behaviour (including rebinding between check "
              "and dial), redirect chain and proxy choice, the modelled handler+client opens no connection to any encoding of an internal "
-             "address unless the opt-in is set. PARTIAL: DNS, net/url parsing and the net/http client loop are assumed (the model of the "
+             "address unless the opt-in is set; c38_spec_equals_model and c38_model_agreement_implies_property link the CIDR-based evaluator to the model. PARTIAL: DNS, net/url parsing and the net/http client loop are assumed (the model of the "
              "loop is tied only through CheckRedirect with a scripted transport and through end-to-end requests to a local server).",
   level_note="Trusted: Coq kernel + vm_compute; the harness (it calls url.Parse/net.LookupIP itself to feed the model the parsed URL and "
              "the resolver's answer); the hand-written model of chat.go tied by exact equality on the address sweep, URL/dial literals, "
-             "proxy-target matching, redirect chains and end-to-end hit counts.",
+             "proxy-target matching, redirect chains and end-to-end hit counts; a resolver stub installed as net.DefaultResolver replays multi-address names "
+             "and DNS rebinding between URL check and dial against a local server.",
   assumptions=["'private' = RFC 1918 + RFC 4193 ranges, 'link-local' = 169.254/16, fe80::/10 and link-local multicast 224.0.0/24, ff?2::/16 "
                "(what net.IP.IsPrivate/IsLinkLocal* document); CGNAT 100.64/10, site-local fec0::/10, IPv4-compatible ::a.b.c.d, NAT64 and 6to4 "
                "embeddings are outside the statement and are classified public by the code (tied, not claimed)",
